@@ -195,8 +195,8 @@ def r2(ctx):
         else:
             yield PASS("C16-R2", "parse/offset-seconds", "east_opt(sign * (hh*3600 + mm*60)), sign = -1 iff the sign character is '-'", [site(b, eo[0][0], "east_opt")])
     # the fraction is brought to exactly 9 digits
-    tr = b.calls(r"String::truncate$")
-    if not tr or const_value(op_const(tr[0][1]["args"][1]) or {}) != 9:
+    tr = b.calls(r"String::truncate$|Iterator::take$")
+    if not tr or const_value(op_const(b.resolve_copy(tr[0][1]["args"][1])) or {}) != 9:
         yield VIOL("C16-R2", "parse/frac-nanos", "fraction is not padded/truncated to 9 digits (nanoseconds)", where=loc(b.j["span"]))
     else:
         yield PASS("C16-R2", "parse/frac-nanos", "fraction padded with '0' and truncated to 9 digits", [site(b, tr[0][0], "truncate(9)")])
